@@ -1,4 +1,6 @@
 CFG = {
+    "extra_theorems": ["Xeh.LeafBridge.limit_comparisons_match_source", "Xeh.LeafBridge.mutation_sites_match", "Xeh.LeafBridge.runtime_mutations_only_in_primitives"],
+    "extra_modules": ["XehModel.Proofs.LeafBridge"],
     "n_quick": 1500, "n_thorough": 60000,
     "rule": "generated programs including structurally endless loops and stack-flooding programs, run step by step under random instruction / stack limits N, S in {none, 0, 1, small, medium}; after a limit error both limits are removed and stepping continues; every full dump compared with the model; heap limit exercised at the API level with `var` definitions. Non-trivial = at least one step executed; distinct = distinct request lines",
     "nontrivial": lambda op, imp: imp.count("@") > 2,
